@@ -414,6 +414,14 @@ pub fn run_random(rng: &mut Rng, len: usize, rep: &mut Report) -> (Case, Option<
         }
         rep.bump("c09/histories_with_a_crowd_of_accounts");
     }
+    // now and then an account holding more than a hundred denominations
+    if rng.chance(1, 30) {
+        let n = *rng.pick(&[99u64, 100, 101, 130]);
+        let to = w.users[1].clone();
+        let coins: Coins = (0..n).map(|i| (format!("d{:03}", i), rng.range_u128(1, 9))).collect();
+        ops.push(BOp::Mint { to, coins });
+        rep.bump("c09/histories_with_over_a_hundred_denominations");
+    }
     for op in ops.clone() {
         if let Some(f) = apply(&mut w, &op, rep) {
             return (Case { ops }, Some(f));
